@@ -522,19 +522,47 @@ def _check_default_shifts(ctx, P):
 
 
 # ------------------------------------------------------------------ _pad_basic
+def _pad_basic_direct(P):
+    a_ = P.func("padding:_pad_basic").node.args
+    return {"da", "grid", "padding_width", "padding", "fill_value"} <= {x.arg for x in a_.posonlyargs + a_.args + a_.kwonlyargs}
+
+
+def pad_basic_fills(P, axnames=("AX", "AY")):
+    """The fill value the harness puts in force per axis: an opaque token when _pad_basic is entered directly, a distinct
+    number per axis when it is entered through pad() (which only accepts numbers)."""
+    if _pad_basic_direct(P):
+        return {a: Sym(f"FILL_{a}") for a in axnames}
+    return {a: 1.5 + i for i, a in enumerate(axnames)}
+
+
+def pad_basic_widths(P, axnames=("AX", "AY")):
+    """The widths the harness asks for: symbolic when _pad_basic is entered directly, distinct positive numbers through pad()
+    (whose early exit for all-zero widths would otherwise be one of the explored paths)."""
+    from ..absint import Lin
+
+    if _pad_basic_direct(P):
+        return {a: (Lin.sym(f"lo_{a}"), Lin.sym(f"hi_{a}")) for a in axnames}
+    return {a: (1 + 2 * i, 2 + 2 * i) for i, a in enumerate(axnames)}
+
+
 def run_pad_basic(P, rule, widths=None, axnames=("AX",)):
     from ..absint import Lin
 
-    fi = P.func("padding:_pad_basic")
     ev = Evaluator(P, method_models=da_method_models(), attr_models=da_attr_models())
+    direct = _pad_basic_direct(P)
+    fills = pad_basic_fills(P, axnames)
 
     def make():
         g = make_grid(axnames)
         da = make_da("da", [Sym("t")] + [dimsym(a, "center") for a in axnames])
-        pw = widths if widths is not None else {Sym(a): (Lin.sym(f"lo_{a}"), Lin.sym(f"hi_{a}")) for a in axnames}
+        pw = widths if widths is not None else {Sym(a): w for a, w in pad_basic_widths(P, axnames).items()}
+        if not direct:
+            # the private routine takes its rule in another form in this tree: enter through the public pad() (no face
+            # connections on this grid), which hands it whatever it expects
+            return dict(data=da, grid=g, boundary_width=pw, boundary={Sym(a): rule for a in axnames}, fill_value={Sym(a): fills[a] for a in axnames}, other_component=None)
         return dict(da=da, grid=g, padding_width=pw, padding={Sym(a): rule for a in axnames}, fill_value={Sym(a): Sym(f"FILL_{a}") for a in axnames})
 
-    return ev.run_paths(fi, make)
+    return ev.run_paths(P.func("padding:_pad_basic") if direct else P.func("padding:pad"), make)
 
 
 MODES = {"periodic": "wrap", "fill": "constant", "extend": "edge"}
@@ -593,11 +621,11 @@ def check_pad_basic(ctx, P, rule_id):
                     bad = bad or f"axis {a}: its dimension is not padded"
                     continue
                 wd, md, cv = per_dim[d]
-                if tuple(wd) != (Lin.sym(f"lo_{a}"), Lin.sym(f"hi_{a}")):
+                if tuple(wd) != pad_basic_widths(P)[a]:
                     bad = bad or f"axis {a}: xarray.pad receives widths {wd!r} instead of the requested (lower, upper) unchanged"
                 elif md != mode:
                     bad = bad or f"rule '{rule}' is translated to pad mode {md!r} instead of '{mode}'"
-                elif mode == "constant" and cv != Sym(f"FILL_{a}"):
+                elif mode == "constant" and cv != pad_basic_fills(P)[a]:
                     bad = bad or f"axis {a}: padded with constant_values={cv!r} instead of the fill value in force for that axis"
                 elif mode != "constant" and cv != "<none>":
                     bad = bad or f"constant_values passed with mode {mode}"
